@@ -411,7 +411,7 @@ def one(ctx, item):
 
 def run(ctx):
     import check
-    items = list(range(160 if ctx.quick else 900))
+    items = list(range(128 if ctx.quick else 900))
     if not ctx.quick:
         items += [f'perm5-{i}' for i in range(48)]
     check.pmap(ctx, 'props.c07', 'one', items, case_timeout=200 if ctx.quick else 900)
